@@ -18,6 +18,9 @@ CHECKS = {
     "C19": ("round-trip and pointwise oracle on arange-filled arrays over enumerated shapes/namings; value-at-every-point oracle for align/materialize",
             "Every array shape within the bound, event rank, naming of batch dims and dtype is converted to a funsor and back and indexed at every named point; every permutation of inputs is aligned for tensors, lazy terms, contractions, Gaussians and Deltas. Exploration, exhaustive over the stated bounded space in the thorough tier.",
             "trusted: numpy indexing; fv/refsem.py for lazy terms", "DESIGN.md §6 C19"),
+    "C02": ("dispatch monitor (run-time wrapper on every DispatchedInterpretation.dispatch and SubstituteInterpretation.interpret) + offline reference check of each firing; innermost-culprit reporting; rule coverage accounting",
+            "While all engines run, every rule application of eager, normalize, lazy, sequential, unfold, optimize (and exact moment_matching/compress_gaussians steps, and per-class eager_subs steps) is recorded and the rule's result is compared with the term it replaces on the whole joint integer input space; evidence lists which registered rule functions fired with a non-identity rewrite, which only returned None and which never fired. Exploration.",
+            "trusted: fv/lift.py, fv/refsem.py; firings over real integrals are undecided; out-of-carrier firings skipped; inexact (moment matching of mixtures) steps and the firings containing them are not judged", "DESIGN.md §6 C02"),
     "C03": ("differential monitor: every deferred/alternative interpretation route vs direct eager vs reference evaluator; memo-cache shadow map on every hit; identity checks; per-config subprocesses",
             "Each generated program is built directly and through every route (lazy/reflect/normalize/memoize then the three reinterpreters, sequential, moment_matching, random nestings of context managers) in processes started with FUNSOR_USE_TCO x FUNSOR_TYPECHECK; every completed route must agree with the reference on the whole input space and keep the output domain; repeated memoized builds must be identical objects and every memo hit must match its stored request. Exploration.",
             "trusted: fv/refsem.py; hashable arguments are considered equal when == (Number(2) and Number(2.0))", "DESIGN.md §6 C03"),
